@@ -2,7 +2,7 @@
 # usage: tools/try_seed.sh <patch.diff> <prop> [<prop> ...]
 # applies the patch to /repo, runs the quick checks of the given properties, undoes the patch.
 set -u
-patch=$1; shift
+patch=$(realpath "$1"); shift
 cd /repo || exit 2
 if ! git diff --quiet; then echo "/repo has uncommitted changes"; exit 2; fi
 git apply "$patch" || { echo "patch does not apply"; exit 2; }
